@@ -29,6 +29,8 @@ TREES = {
     "ordered with the same entry spelt three ways": ({
         "index.md": page("Root", ordered=("zeta.md", "sub/", "./beta.md", "sub", "./index.md")), "alpha.md": page("Alpha"), "beta.md": page("Beta"), "zeta.md": page("Zeta"),
         "sub/index.md": page("Sub"), "sub/k.md": page("K")}, ""),
+    "ordered entry naming a file below a sub-directory": ({
+        "index.md": page("Root", ordered=("sub/x.md", "b.md")), "a.md": page("A"), "b.md": page("B"), "sub/index.md": page("Sub"), "sub/x.md": page("X"), "sub/y.md": page("Y")}, ""),
     "dotted names": ({"index.md": page("Root"), "a.md": page("A plain"), "a.b.md": page("A dot B"), "release.1.2.md": page("Release")}, ""),
     "copy_subdir in metadata": ({
         "index.md": page("Root", "![p](plots/p.png)\n", copy=("images", "plots")), "images/i.png": "i", "plots/p.png": "p", "plots/deep/q.png": "q", "media/m.png": "m",
@@ -90,7 +92,7 @@ def model(tree, proj_copy):
         ordered = [os.path.normpath(o) for o in m["ordered_subpage"] if os.path.normpath(o) != "index.md"]
         merged = list(dict.fromkeys(ordered + names))
         for nm in merged:
-            if nm.startswith(".") or nm.endswith("~"):
+            if nm.startswith(".") or nm.endswith("~") or "/" in nm:
                 continue
             full = (d + "/" if d else "") + nm
             if full in dirs:
